@@ -269,3 +269,72 @@ def cyclic_trace(copy=False):
     ev.append(w.mutate(2, "function"))
     ev.append(w.mutate(1, "name"))
     return {"hdr": {"universe": "cyclic"}, "ev": ev}
+
+
+# ---- models with variables and distribution nodes: structural facts of one build -----------------------------
+def plan_build_trace(rng, n=6):
+    """Random plans of harness.graph_driver (Vars with proxies, weak Vars, Dist / TransientDist with `at`) are built;
+    the event reports what the real model recorded (update order, outputs, names) next to the plan."""
+    from harness import graph_driver as G
+
+    ev = []
+    for _ in range(n):
+        plan = G.gen_plan(rng, nmax=9)
+        run = G.GraphRun(plan)
+        m = run.model
+        ids = {f"n{i}": i for i in range(1, run.n + 1)}
+        own = [nd for nd in m._sorted_nodes if nd.name in ids]
+        ev.append({"ev": "plan_built", "inp": [p["inp"] for p in plan], "kinds": [p["kind"] for p in plan],
+                   "order": [ids[nd.name] for nd in own],
+                   "outs": [sorted(ids[o.name] for o in m.nodes[f"n{i}"].outputs if o.name in ids) for i in range(1, run.n + 1)],
+                   "all_names": sorted(m.nodes) + sorted("var:" + v for v in m.vars),
+                   "frozen": all(nd.model is m for nd in m.nodes.values()),
+                   "var_nodes_present": all(nd.name in m.nodes for v in m.vars.values() for nd in v.nodes)})
+    return {"hdr": {"universe": "plans"}, "ev": ev}
+
+
+def rejected_build_events():
+    """Graphs that must be rejected: a cycle that runs through the `at` edge of a distribution node, duplicate node /
+    variable names, two different groups of the same name (also when one holds only nodes and the other only vars)."""
+    import tensorflow_probability.substrates.jax.distributions as tfd
+    out = []
+
+    def attempt(what, build, expect):
+        try:
+            build()
+            got = "accepted"
+        except Exception as ex:  # noqa: BLE001
+            got = classify(ex)
+        out.append({"ev": "must_reject", "what": what, "got": got, "expect": expect})
+
+    def cyc_at():
+        # a variable whose value is computed from its own log-prob node
+        d = lsl.Dist(tfd.Normal, loc=0.0, scale=1.0)
+        z = lsl.Var(lsl.Calc(lambda lp: lp * 0.0 + 1.0, d), d, name="z")
+        lsl.GraphBuilder().add(z).build_model()
+
+    def dup_nodes():
+        a, b = lsl.Value(1.0, _name="x"), lsl.Value(2.0, _name="x")
+        lsl.GraphBuilder().add(lsl.Calc(lambda u, v: u + v, a, b, _name="c")).build_model()
+
+    def dup_vars():
+        a, b = lsl.Var(1.0, name="v"), lsl.Var(2.0, name="v")
+        b.value_node.name = "other_value"
+        b.var_value_node.name = "other_var_value"
+        lsl.GraphBuilder().add(lsl.Var(lsl.Calc(lambda u, v: u + v, a, b), name="c")).build_model()
+
+    def dup_groups(kind1, kind2):
+        def f():
+            a, b = lsl.Value(1.0, _name="a"), lsl.Value(2.0, _name="b")
+            va, vb = lsl.Var(a, name="va"), lsl.Var(b, name="vb")
+            lsl.Group("g", m=(a if kind1 == "node" else va))
+            lsl.Group("g", m=(b if kind2 == "node" else vb))
+            lsl.GraphBuilder().add(lsl.Calc(lambda u, v: u + v, va, vb, _name="c")).build_model()
+        return f
+
+    attempt("cycle_through_at", cyc_at, "cycle")
+    attempt("duplicate_node_names", dup_nodes, "duplicate_names")
+    attempt("duplicate_var_names", dup_vars, "duplicate_names")
+    for k1, k2 in (("node", "node"), ("var", "var"), ("node", "var"), ("var", "node")):
+        attempt(f"duplicate_group_names_{k1}_{k2}", dup_groups(k1, k2), "duplicate_names")
+    return {"hdr": {"universe": "plans"}, "ev": out}
